@@ -243,10 +243,12 @@ impl<'a> Gen<'a> {
     fn maybe_id(&mut self, attrs: &mut Vec<(String, String)>) {
         if self.o.ids && self.rng.chance(1, 4) {
             self.idn += 1;
-            attrs.push(("id".into(), format!("id{}", self.idn)));
+            // (ids and class names are case-sensitive: some are written with capitals)
+            let pfx = if self.o.classes && self.rng.chance(1, 5) { "Id" } else { "id" };
+            attrs.push(("id".into(), format!("{}{}", pfx, self.idn)));
         }
         if self.o.classes && self.rng.chance(1, 3) {
-            let c = *self.rng.pick(&["ca", "cb", "cc", "ca cb"]);
+            let c = *self.rng.pick(&["ca", "cb", "cc", "ca cb", "Cd", "cd", "cD ca", "MsoNormal"]);
             attrs.push(("class".into(), c.to_string()));
         }
         if self.o.colours && self.rng.chance(1, 5) {
